@@ -187,11 +187,14 @@ def list_elements(fn, e, use, pm, depth=0):
             o, c = list_elements(fn, side, use, pm, depth + 1)
             out += o
             complete &= c
+    elif isinstance(e, ast.BinOp) and isinstance(e.op, ast.Mult) and (isinstance(e.left, ast.List) or isinstance(e.right, ast.List)):
+        return list_elements(fn, e.left if isinstance(e.left, ast.List) else e.right, use, pm, depth + 1)     # [x] * n: the elements of the display
     elif isinstance(e, ast.Call) and isinstance(e.func, ast.Name) and e.func.id in ('list', 'tuple') and len(e.args) == 1:
         return list_elements(fn, e.args[0], use, pm, depth + 1)
     elif isinstance(e, ast.Name):
         nm = e.id
-        ds = definitions(fn.node, nm)
+        # the definitions that can reach the use (a later re-use of the name, e.g. as a loop variable, is not one of them)
+        ds = [d for d in reaching_definitions(fn.node, nm, use, pm) if d[2] != 'param'] if use is not None else definitions(fn.node, nm)
         if not ds:
             return out, False
         for st, v, how in ds:
@@ -315,6 +318,25 @@ def rule_SS4_points(ctx, rep):
             if mp is None and isinstance(tup.elts[0], ast.BinOp):
                 praw = _plus_one(tup.elts[0])
                 pb = routes._find_binder(_Tmp(tup, binders), praw.id) if isinstance(praw, ast.Name) else None
+                if pb is not None and pb.kind == 'zip':
+                    # (p + 1, f(s)) for p, s in zip(PARTIES, SHARES): slot k of SHARES must hold what was received from PARTIES[k]
+                    src_p = cnorm(routes.xp(fn, pb.src_of(praw.id), pb.node, pm))
+                    snames = [n_.id for n_ in ast.walk(tup.elts[1]) if isinstance(n_, ast.Name) and n_.id in pb.elems and n_.id != praw.id]
+                    cont = pb.src_of(snames[0]) if len(snames) == 1 else None
+                    hit = None
+                    for e in recvs:
+                        if e.slot is None or e.slot[0] != 'comp' or not isinstance(e.peer_raw, ast.Name) or not isinstance(cont, ast.Name) or e.slot[1] != cont.id:
+                            continue
+                        rb = routes._find_binder(e, e.peer_raw.id)
+                        if rb is None or rb.kind != 'iter' or rb.elem != e.peer_raw.id or rb.node is not e.slot[2] or len(e.slot[2].generators) != 1 or e.slot[2].generators[0].ifs:
+                            continue
+                        if cnorm(routes.xp(fn, rb.src, rb.node, pm)) == src_p:
+                            hit = e
+                    if hit is not None:
+                        rep.ok('SS4', fn, tup, f'slot k holds the share received from the k-th party of {norm(pb.src_of(praw.id))}; it is attributed to that party\'s point')
+                    else:
+                        rep.bad('SS4', fn, tup, f'the share paired with x-coordinate {norm(tup.elts[0])} was not received from party {norm(praw)}: recombination uses wrong evaluation points')
+                    continue
                 if pb is not None and pb.kind == 'enum' and pb.elem == praw.id and pb.start == 0:
                     cont, pos_p = _slot_position(fn, tup, tup.elts[1], binders, pm)
                     src_p = cnorm(routes.xp(fn, pb.src, pb.node, pm))
@@ -358,6 +380,10 @@ def rule_SS4_points(ctx, rep):
                         pos_r = Lin.sym(rb[0].var) - rb[0].lo
                     else:
                         pos_r = None
+                elif e.slot[0] == 'append':
+                    # appended once per iteration of a range loop to a list that is empty when the loop starts: position = var - lo
+                    rcont = e.slot[1]
+                    pos_r = _append_position(fn, e, pm)
                 else:
                     pos_r = None
                 if Lp is None or Lr is None or pos_p is None or pos_r is None or cont is None:
@@ -384,6 +410,27 @@ def rule_SS4_points(ctx, rep):
                        'recombination uses wrong evaluation points')
             (rep.ok if ok else rep.bad)('SS4', fn, tup, why)
     return n
+
+
+def _append_position(fn, e, pm):
+    """Lin position (over the loop variable) at which the value of receive event e lands in its list, when the list is empty
+    before a range loop and the append is the only one, unconditional, once per iteration; None otherwise."""
+    st = e.slot[3]
+    b = e.binders[-1] if e.binders else None
+    if b is None or b.kind != 'range' or not isinstance(b.node, (ast.For, ast.AsyncFor)) or not any(st is s_ for s_ in b.node.body):
+        return None
+    if len(e.binders) > 1 and any(x is b.node for ob in e.binders[:-1] for x in ast.walk(ob.node)):
+        pass        # nested in an outer loop: the list must be re-initialised inside it (checked through the reaching definition)
+    name = e.slot[1]
+    ds = reaching_definitions(fn.node, name, b.node, pm)
+    if len(ds) != 1 or not (isinstance(ds[0][1], ast.List) and not ds[0][1].elts):
+        return None
+    others = [c for c in iter_nodes(fn.node) if isinstance(c, ast.Call) and isinstance(c.func, ast.Attribute) and isinstance(c.func.value, ast.Name)
+              and c.func.value.id == name and c.func.attr in ('append', 'extend', 'insert', 'pop', 'remove')
+              and any(x is c for x in ast.walk(b.node)) and not any(x is c for x in ast.walk(st))]
+    if others:
+        return None
+    return Lin.sym(b.var) - b.lo
 
 
 def _derives_only_from(fn, e, use, pm, target, depth=0, seen=None):
